@@ -143,6 +143,10 @@ Definition dom_op (A : list (option arr)) (o : lop) : Prop :=
   | OReextentMove r _ => exists ar, live A r ar
   | OReshape r x => exists ar, live A r ar /\ bnumel x = nel ar
   | OWrite r k _ => exists ar, live A r ar /\ Z.of_nat k < nel ar
+  | OViewAssign r s vr vs =>
+      (* views of two different arrays with equal extensions (the assertion of every subarray::operator=) *)
+      r <> s /\ (exists ar, live A r ar /\ vsrc_dom ar vr) /\ (exists as_, live A s as_ /\ vsrc_dom as_ vs)
+      /\ bx_eq (vs_exts vr) (vs_exts vs) = true
   end.
 
 Lemma live_slot A r a : live A r a -> slotA A r = Some a.
@@ -337,7 +341,7 @@ Proof.
   - destruct p as [|b].
     + intros s H. exact H.
     + intros s1 (HA & Hn & I1 & Sh & blk1 & Hb1 & Ho1 & Hs1).
-      destruct (c_trivial cfg) eqn:Ht.
+      destruct (c_tdc cfg) eqn:Ht.
       * cbn. split; auto. split; auto. split; auto.
         destruct Sh as (blk & Hb & Hl & _). assert (blk = blk1) by congruence. subst.
         exists blk1. repeat split; auto. apply trivial_cells_ok; auto.
@@ -404,6 +408,34 @@ Proof.
   pose proof (assign_loop_spec cfg rank_pos SAssignElem [b] s b (nnel ar) (or_introl eq_refl) (seqn (nnel ar)) srcs Fok Fo s
                 (conj (st_le_refl cfg [b] s) Ai)) as Tr.
   destruct (assign_loop cfg SAssignElem b (seqn (nnel ar)) srcs s) as [[] s'|s'|e]; try contradiction.
+  - destruct Tr as [L (blk' & Hb' & _ & _ & Hok')]. split.
+    + eapply Inv_st_le; [exact I|exact L|]. intros b' [<-|[]]. right. intros blk2 H2. assert (blk2 = blk') by congruence. subst; auto.
+    + destruct L as (E & _). congruence.
+  - destruct Tr as (L & (blk' & Hb' & _ & _ & Hok') & Th). split; [|split; auto].
+    + eapply Inv_st_le; [exact I|exact L|]. intros b' [<-|[]]. right. intros blk2 H2. assert (blk2 = blk') by congruence. subst; auto.
+    + destruct L as (E & _). congruence.
+Qed.
+
+(* element assignment at given offsets of the block of a live array (assignment through views) *)
+Lemma assign_offs_spec X A r ar offs srcs :
+  nth_error A r = Some (Some ar) -> Forall (src_in_ex A r) srcs -> Forall (fun o => (o < nnel ar)%nat) offs ->
+  triple (fun s => Inv X s /\ s_arrs s = A)
+         (if nel ar <=? 0 then ret tt else b <- base_blk ar ;; assign_loop cfg SAssignElem b offs srcs)
+         (fun _ s' => Inv X s' /\ s_arrs s' = A)
+         (fun s' => Inv X s' /\ s_arrs s' = A /\ thrown SAssignElem s').
+Proof.
+  intros Hr F Fo s [I HA]. destruct (Z.leb_spec (nel ar) 0) as [Hz|Hp]; [cbn; auto|].
+  assert (Hs : get_slot s r = Some ar) by (unfold get_slot; rewrite HA, Hr; reflexivity).
+  destruct (inv_arr _ _ _ I r ar Hs Hp) as (b & blk & Hb & Hblk & Hlv & Hsz & Hal & Hok).
+  destruct (inv_blk _ _ _ I b blk Hblk) as [[_ Hlen] _].
+  unfold bind at 1. unfold base_blk. rewrite Hb. cbn [ret].
+  assert (Fok : Forall (src_ok cfg s [b]) srcs).
+  { eapply Forall_impl; [|exact F]. intros x Hx. eapply src_in_ex_ok; eauto. }
+  assert (Ai : allinit cfg s b (nnel ar)).
+  { exists blk. repeat split; auto. unfold nnel. rewrite Hlen, Hsz. reflexivity. }
+  pose proof (assign_loop_spec cfg rank_pos SAssignElem [b] s b (nnel ar) (or_introl eq_refl) offs srcs Fok Fo s
+                (conj (st_le_refl cfg [b] s) Ai)) as Tr.
+  destruct (assign_loop cfg SAssignElem b offs srcs s) as [[] s'|s'|e]; try contradiction.
   - destruct Tr as [L (blk' & Hb' & _ & _ & Hok')]. split.
     + eapply Inv_st_le; [exact I|exact L|]. intros b' [<-|[]]. right. intros blk2 H2. assert (blk2 = blk') by congruence. subst; auto.
     + destruct L as (E & _). congruence.
